@@ -272,9 +272,17 @@ def _pmap_call(args):
     func, item = args
     from . import solve
     before = dict((k, v) for k, v in solve.STATS.items() if isinstance(v, (int, float)))
+    tl = os.environ.get("VERIF_TASKLOG")
+    t0 = time.time()
+    if tl:
+        with open(tl, "a") as f:
+            f.write("START %d %s\n" % (os.getpid(), repr(item)[:300]))
     try:
         r = func(item)
         err = None
+        if tl:
+            with open(tl, "a") as f:
+                f.write("DONE %d %.1fs %s\n" % (os.getpid(), time.time() - t0, repr(item)[:120]))
     except BaseException as e:  # noqa
         import traceback
         r, err = None, "%r\n%s" % (e, traceback.format_exc()[-1500:])
